@@ -5,11 +5,11 @@ from vflib.lattice import lattice_check
 def run(ctx):
     return lattice_check(ctx, gen="math/InterpolationGen", judge="math/InterpolationJudge", harness="interpolation.cxx",
                          libs=["TFELMathCubicSpline", "TFELMath", "TFELException"],
-                         rule="every table of 1..3 nodes (gaps 1 or 2, values in -1..1), a sub-family of 4-node tables (all 4- and "
-                              "5-node tables in thorough), every query on the half-integer grid from one unit below to one unit above "
+                         rule="every table of 1..3 nodes (gaps 1 or 2, values in -1..1), a sub-family of 4-node tables ("
+                              "all 4-node tables in thorough), every query on the half-integer grid from one unit below to one unit above "
                               "the table (nodes, mid-points, outside); linear (extrapolate / clamp, with derivative) and natural cubic "
                               "spline (value, 1st and 2nd derivative, clamp, integral, antisymmetry, additivity, mean value); "
                               "non-trivial = at least 2 nodes",
                          nontrivial=lambda c: len(c["xs"]) >= 2,
                          assumptions=["the oracle's own natural-spline theorems (C0/C1/C2, natural ends) are checked by TLC on 4 tables",
-                                      "integer abscissae / values and half-integer queries; tables of up to 5 nodes (50 in the statement)"])
+                                      "integer abscissae / values and half-integer queries; tables of up to 4 nodes (50 in the statement)"])
